@@ -24,12 +24,12 @@ Lemma vis_children_nth a (kids : list (field * list tree)) fl x :
   nth_error (kids_of (fst (ch_step x)) kids) (snd (ch_step x)) = Some (ch_node x).
 Proof.
   unfold vis_children. rewrite in_flat_map. intros [vi [_ H]].
-  assert (FC : forall f, In x (field_children G a kids fl f) ->
+  assert (FC : forall s f, In x (field_children G a kids fl s f) ->
      nth_error (kids_of (fst (ch_step x)) kids) (snd (ch_step x)) = Some (ch_node x)).
-  { intros f Hf. unfold field_children in Hf. destruct (fdesc_of G a f) as [d|]; [|destruct Hf].
+  { intros s f Hf. unfold field_children in Hf. destruct (fdesc_of G a f) as [d|]; [|destruct Hf].
     apply tag_elems_nth in Hf. destruct Hf as [H1 [_ H3]]. rewrite H1. now rewrite Nat.sub_0_r in H3. }
-  destruct vi as [s f|alts]; cbn [visit_children] in H; [now apply FC with f|].
-  destruct (pick_alt alts kids) as [y|]; [now apply FC with (snd y)|destruct H].
+  destruct vi as [s f|alts]; cbn [visit_children] in H; [now apply FC with s f|].
+  destruct (pick_alt alts kids) as [y|]; [now apply FC with (fst y) (snd y)|destruct H].
 Qed.
 
 Lemma subtree_at_step a kids st q c :
@@ -89,8 +89,8 @@ Proof.
     assert (Hx : In x (vis_children G a kids fl')) by (rewrite E; apply in_elt).
     destruct (vis_children_sub G a kids fl' x Hx) as [kv [K1 K2]].
     apply (IH kv _ K1 K2) in H'; [exact H'|].
-    apply vis_children_In in Hx. destruct Hx as [d [_ [_ [F _]]]]. unfold ch_fl. rewrite F.
-    destruct (f_kind d); cbn [child_fl]; auto. }
+    apply vis_children_In in Hx. destruct Hx as [d [_ [_ [[s0 F] _]]]]. unfold ch_fl. rewrite F.
+    destruct (f_kind d); cbn [child_fl]; auto. destruct s0; auto. }
   destruct asw; [now apply CS in H|]. cbv zeta in H.
   assert (FL2 : own_fl G a fl = Orig \/ own_fl G a fl = Copy \/ by_value G a = true).
   { unfold own_fl. destruct (by_value G a); [now right; right|destruct FL; auto]. }
@@ -104,56 +104,70 @@ Qed.
 End WithVisitor.
 End WithSpec.
 
-(* the address of a copy is handed over only inside a wrapper element (a class element) *)
-Section Copies.
+(* when no arm walks a wrapper list through a by-value range, every node that is not stored by value
+   is handed over by its own address in the tree (all trees, all visitors) *)
+Section NoCopies.
 Variable G : spec.
 Hypothesis COV : covers G = true.
+Hypothesis CF : copy_free G = true.
 Variable V : Type.
 Variable enter : list (event V) -> V -> path -> ty -> flavour -> option V.
 Notation pwalk := (pwalk G V enter).
 Notation walk_cs := (walk_cs G V enter).
 
-Lemma pwalk_copy_origin t : forall asw h v p fl e,
-  wt_from G t = true -> asw = is_wrapper G (tree_ty t) ->
-  In e (pwalk t asw h v p fl) -> e_fl e = Copy ->
-  fl = Copy \/
-  exists q c, subtree_at t q = Some c /\ is_wrapper G (tree_ty c) = true /\ prefix (p ++ q) (e_path e).
+Lemma copy_free_visits a : forallb visit_copy_free (visits_of G a) = true.
 Proof.
-  induction t as [a kids IH] using tree_ind_In. intros asw h v p fl e WT FLG H CP.
-  cbn [tree_ty] in FLG. rewrite pwalk_unfold in H.
-  destruct (by_value G a) eqn:BV.
-  { exfalso. destruct (wt_by_value_leaf G COV a kids WT BV) as [-> NW]. rewrite NW in *. subst asw.
-    unfold vis_children in H. rewrite (by_value_visits G a BV) in H. cbn [flat_map Lemmas.walk_cs app] in H.
-    cbv zeta in H. unfold own_fl in H. rewrite BV in H.
-    destruct (enter h v p a ByVal); [destruct H as [<-|[<-|[]]]|destruct H as [<-|[]]]; discriminate. }
-  assert (OFL : own_fl G a fl = fl) by (unfold own_fl; now rewrite BV).
-  assert (CS : forall h' v', In e (walk_cs (vis_children G a kids fl) h' v' p) ->
-            fl = Copy \/ exists q c, subtree_at (Node a kids) q = Some c /\ is_wrapper G (tree_ty c) = true /\
-                                      prefix (p ++ q) (e_path e)).
-  { intros h' v' H'. apply walk_cs_In in H'. destruct H' as [cs1 [x [cs2 [E H']]]].
-    assert (Hx : In x (vis_children G a kids fl)) by (rewrite E; apply in_elt).
-    destruct (wt_vis_child G COV a kids fl x WT BV Hx) as [W [F _]].
-    destruct (vis_children_sub G a kids fl x Hx) as [kv [K1 K2]].
-    pose proof (vis_children_nth G a kids fl x Hx) as NTH.
-    pose proof H' as H0.
-    apply (IH kv _ K1 K2 _ _ _ _ _ _ W F) in H'; [|exact CP].
-    destruct H' as [C|[q [c [S1 [S2 S3]]]]].
-    - apply vis_children_In in Hx. destruct Hx as [d [_ [A1 [A2 _]]]]. unfold ch_fl in C. rewrite A2 in C.
-      destruct (f_kind d) eqn:K; cbn [child_fl] in C; try discriminate; [now left|].
-      right. exists [ch_step x], (ch_node x). split; [|split].
-      + etransitivity; [apply (subtree_at_step a kids (ch_step x) [] (ch_node x) NTH)|reflexivity].
-      + rewrite <- F. unfold ch_asw. rewrite A1. reflexivity.
-      + apply pwalk_prefix in H0. now destruct H0.
-    - right. exists (ch_step x :: q), c. split; [|split; [exact S2|]].
-      + rewrite <- S1. now apply subtree_at_step.
-      + replace (p ++ ch_step x :: q) with ((p ++ [ch_step x]) ++ q); [exact S3|]. now rewrite <- app_assoc. }
-  destruct asw; [now apply CS in H|]. cbv zeta in H. rewrite OFL in H.
-  destruct (enter h v p a fl) as [v'|].
-  - destruct H as [<-|H]; [now left|]. apply in_app_or in H. destruct H as [H|[<-|[]]]; [now apply CS in H|now left].
-  - destruct H as [<-|[]]. now left.
+  destruct (Nat.ltb a (ntypes G)) eqn:L.
+  - apply Nat.ltb_lt in L. unfold copy_free in CF. rewrite forallb_forall in CF. apply CF. apply in_seq. lia.
+  - apply Nat.ltb_ge in L. rewrite by_value_visits; [reflexivity|]. unfold by_value. now apply Nat.leb_le.
 Qed.
 
-End Copies.
+Lemma vis_children_orig a (kids : list (field * list tree)) x :
+  In x (vis_children G a kids Orig) -> ch_fl x = Orig.
+Proof.
+  unfold vis_children. rewrite in_flat_map. intros [vi [Hvi H]].
+  pose proof (copy_free_visits a) as CFV. rewrite forallb_forall in CFV. specialize (CFV vi Hvi).
+  assert (FC : forall s f, shape_copy_free s = true -> In x (field_children G a kids Orig s f) -> ch_fl x = Orig).
+  { intros s f SF Hf. unfold field_children in Hf. destruct (fdesc_of G a f) as [d|]; [|destruct Hf].
+    apply tag_elems_In in Hf. destruct Hf as [_ [_ [H3 _]]]. unfold ch_fl. rewrite H3.
+    destruct (f_kind d); cbn [child_fl]; try reflexivity. destruct s; try reflexivity. discriminate. }
+  destruct vi as [s f|alts]; cbn [visit_children visit_copy_free] in *; [now apply FC with s f|].
+  destruct (pick_alt alts kids) as [y|] eqn:P; [|destruct H].
+  apply FC with (fst y) (snd y); [|exact H].
+  rewrite forallb_forall in CFV. apply CFV.
+  clear - P. induction alts as [|a0 r IH]; [discriminate|]. cbn [pick_alt] in P.
+  destruct r as [|b r']; [inversion P; now left|].
+  destruct (kids_of (snd a0) kids); [right; now apply IH|inversion P; now left].
+Qed.
+
+Lemma pwalk_orig t : forall asw h v p e,
+  In e (pwalk t asw h v p Orig) ->
+  (by_value G (e_ty e) = false /\ e_fl e = Orig) \/ (by_value G (e_ty e) = true /\ e_fl e = ByVal).
+Proof.
+  induction t as [a kids IH] using tree_ind_In. intros asw h v p e H.
+  rewrite pwalk_unfold in H.
+  assert (OWN : forall k (v0 : V), (by_value G (e_ty (Ev k v0 p a (own_fl G a Orig))) = false /\
+                               e_fl (Ev k v0 p a (own_fl G a Orig)) = Orig) \/
+                              (by_value G (e_ty (Ev k v0 p a (own_fl G a Orig))) = true /\
+                               e_fl (Ev k v0 p a (own_fl G a Orig)) = ByVal)).
+  { intros. cbn. unfold own_fl. destruct (by_value G a); [now right|now left]. }
+  assert (CS : forall h' v', In e (walk_cs (vis_children G a kids Orig) h' v' p) ->
+            (by_value G (e_ty e) = false /\ e_fl e = Orig) \/ (by_value G (e_ty e) = true /\ e_fl e = ByVal)).
+  { intros h' v' H'. apply walk_cs_In in H'. destruct H' as [cs1 [x [cs2 [E H']]]].
+    assert (Hx : In x (vis_children G a kids Orig)) by (rewrite E; apply in_elt).
+    destruct (vis_children_sub G a kids Orig x Hx) as [kv [K1 K2]].
+    rewrite (vis_children_orig a kids x Hx) in H'. now apply (IH kv _ K1 K2) in H'. }
+  destruct asw; [now apply CS in H|]. cbv zeta in H.
+  destruct (by_value G a) eqn:BV.
+  - unfold vis_children, visits_of, arm_of in H. rewrite BV in H. cbn [flat_map Lemmas.walk_cs app] in H.
+    destruct (enter h v p a (own_fl G a Orig)); [destruct H as [<-|[<-|[]]]|destruct H as [<-|[]]]; apply OWN.
+  - assert (OFL : own_fl G a Orig = Orig) by (unfold own_fl; now rewrite BV). rewrite OFL in *.
+    destruct (enter h v p a Orig) as [v'|].
+    + destruct H as [<-|H]; [apply OWN|]. apply in_app_or in H. destruct H as [H|[<-|[]]]; [now apply CS in H|apply OWN].
+    + destruct H as [<-|[]]. apply OWN.
+Qed.
+
+End NoCopies.
 
 (* what [all_nodes] is: the paths of the tree at which a non-wrapper subtree sits *)
 Section NodesSpec.
